@@ -318,7 +318,7 @@ def _raw(p):
     return p
 
 register(_raw(Prop('C05', 'listing is an exact cover', props.c05_cases, props.c05_oracle, compare=props.c05_compare,
-              group_oracle=props.c05_group_oracle, partial='proved so far only for the parts of the pipeline listed in Properties/C05.v',
+              group_oracle=props.c05_group_oracle, partial='order-independence of the result strings for uniform widths is not yet a theorem (checked on permuted inputs)',
               rule='generated file sets (dirs x basenames x extensions x width policies x signs x hidden x frame-less), each in 5 option/order variants')))
 register(_raw(Prop('C06', 'directory scan = listing of its non-directory entries', props.c06_cases, props.c06_oracle, need_root=True,
               multiset=True, extra_lines=props.c06_extra_lines, extra_oracle=props.c06_extra_oracle, partial='the operating system (Readdir, Stat) is an oracle value observed on real temporary directories',
